@@ -52,7 +52,7 @@ theorem call_not_settled {s : State} (hi : Inv s) {c : Call} (hc : c ∈ s.calls
   exact ⟨e, ⟨he, hcall⟩, rfl⟩
 
 theorem cleanup_obsSuccess (z : State) : (cleanupCalls (cleanupBatches z)).obsSuccess = z.obsSuccess := by
-  obtain ⟨fm, hfm⟩ := cleanupCalls_core (cleanupBatches z)
+  obtain ⟨fm, er, hfm⟩ := cleanupCalls_core (cleanupBatches z)
   rw [hfm]
   unfold cleanupCallsCore
   simp only [foldl_refundCall_obsSuccess]
@@ -270,8 +270,8 @@ theorem K_step {s : State} {x : Ext} (hk : K s x) (hj : J s x) (hi : Inv s) (op 
          rcases he with he | rfl
          · exact Or.inl he
          · exact Or.inr rfl)
-  | incFee id who t add =>
-    have hd := (next_incFee_fields x s id who t add).2.2.2.2
+  | incFee id who t add evm =>
+    have hd := (next_incFee_fields x s id who t add evm).2.2.2.2
     simp only [step]; unfold doIncFee
     repeat' split
     all_goals exact K_frame hk rfl rfl rfl (Nat.le_refl _) hd (fun e he => Or.inl he)
